@@ -161,7 +161,7 @@ def build_props(pid, thorough=False, log=None):
     Returns dict(ok, theorems, axioms, out, checker_cmd).  Quick: the dependency cone is brought
     up to date with make (unchanged files are not rebuilt) and the Props file itself is always
     recompiled; thorough: every .vo the Props file depends on is deleted first, so that each
-    lemma is re-checked from source, and coqchk -o is run on the result.
+    lemma is re-checked from source; coqchk -o is run on the result when VERIF_COQCHK_TIMEOUT=<seconds> is set.
     """
     rel = 'Props/%s.v' % pid
     path = os.path.join(COQ, rel)
@@ -214,7 +214,11 @@ def build_props(pid, thorough=False, log=None):
                n_print_assumptions=npa, closed=closed)
     bad_ax = [a for a in axioms if a not in STD_AXIOMS_OK and not a.startswith(('Uint63.', 'PrimFloat.', 'FloatAxioms.', 'PrimInt63.', 'Sint63.'))]
     res['unexpected_axioms'] = bad_ax
-    if thorough and ok:
+    if thorough and ok and not os.environ.get('VERIF_COQCHK_TIMEOUT'):
+        # coqchk re-checks Coquelicot, Interval, Flocq and every nsatz / field certificate from scratch: 25 min for the
+        # smallest Props file, more than 50 for most.  It is therefore run on request only (VERIF_COQCHK_TIMEOUT=<seconds>).
+        res['coqchk_skipped'] = True
+    if thorough and ok and os.environ.get('VERIF_COQCHK_TIMEOUT'):
         chk = 'flock /tmp/pv_coqchk.lock timeout %d coqchk -silent -o -R %s PV PV.Props.%s' % (int(os.environ.get('VERIF_COQCHK_TIMEOUT', '900')), COQ, pid)
         p2 = subprocess.run(chk, shell=True, stdout=subprocess.PIPE, stderr=subprocess.STDOUT, text=True)
         res['coqchk_rc'] = p2.returncode
@@ -392,7 +396,8 @@ def finish(ctx, proofs, level_text=''):
         rule=getattr(ctx, 'rule', ''), samples=ctx.samples or ['(none)'],
         traces_validated_against_impl=ctx.traces, branch_histogram=ctx.hist,
         model_impl_mismatches=len(ctx.mismatches), known_findings_reproduced=sorted(ctx.known_hit),
-        notes=ctx.notes + ([('coqchk -o (independent re-check of the compiled proofs): ' +
+        notes=ctx.notes + (['coqchk -o not run (it needs 25 to 60+ minutes per Props file; set VERIF_COQCHK_TIMEOUT=<seconds> to run it)']
+                           if proofs.get('coqchk_skipped') else []) + ([('coqchk -o (independent re-check of the compiled proofs): ' +
                              ('did not finish within its time slot' if proofs.get('coqchk_timed_out') else 'exit status %s' % proofs.get('coqchk_rc')))]
                            if 'coqchk_rc' in proofs else []),
         exhaustive=bool(getattr(ctx, 'exhaustive', False)),
